@@ -17,6 +17,8 @@ import (
 func runC19b(c *core.Ctx) {
 	c.Rule("R19.6", "every connection routes over the whole configured node set: the cluster handler's constructor hands the ring one bucket per configured address, and a node that cannot be reached fails the constructor (no path from a failed dial back into the loop or on to the ring construction): a ring built from the nodes that happened to answer makes the route depend on which connection asks", 2)
 	c.Rule("R19.7", "the number of ring points of a node does not depend on how many nodes there are when weights are equal: the replica count is computed in exact integer arithmetic or rounded to nearest - a float product truncated towards zero loses a whole replica whenever rounding error leaves it just below the integer, and the nodes that survive a removal then exchange keys", 1)
+	c.Rule("R19.9", "a ring lookup stays inside the ring: every index into the sorted ring is the constant wrap-around or a search result tested to be below len(ring) on the edge it arrives by", 1)
+	runR199(c, "R19.9")
 	c.Rule("R19.8", "the listing position of a node flows into nothing that is stored in a ring point except the node itself: a position stored beside the point (and consulted by the comparator or the lookup) makes the sorted ring depend on listing order", 1)
 
 	// ---- R19.6
@@ -361,4 +363,96 @@ func firstBodyBlock(l *ssax.Loop) *ssa.BasicBlock {
 		}
 	}
 	return l.Header
+}
+
+// runR199 (R19.9, shared as R11.8 / R10.14): a ring lookup stays inside the ring. Every index into the sorted ring is a
+// constant (the wrap-around to the first point) or a search result that, on the edge it arrives by, was tested to be
+// below the ring's length (not "at most": sort.Search answers len(ring) for a hash beyond the last point). The lookup
+// of a multi-key get runs on a goroutine of its own, outside the connection loop's recover: an index one past the end
+// there ends the process.
+func runR199(c *core.Ctx, rule string) {
+	n := 0
+	isRingLen := func(v ssa.Value) bool {
+		v = ssax.Unwrap(v)
+		if cv, ok := v.(*ssa.Convert); ok {
+			v = ssax.Unwrap(cv.X)
+		}
+		call, ok := v.(*ssa.Call)
+		if !ok {
+			return false
+		}
+		if b, ok := call.Call.Value.(*ssa.Builtin); !ok || b.Name() != "len" {
+			return false
+		}
+		return isFieldLoad(call.Call.Args[0], "ring")
+	}
+	below := func(cond ssa.Value, truth bool, idx ssa.Value) bool {
+		bo, ok := cond.(*ssa.BinOp)
+		if !ok {
+			return false
+		}
+		same := func(a ssa.Value) bool { return ssax.Unwrap(a) == ssax.Unwrap(idx) }
+		switch {
+		case bo.Op == token.GEQ && !truth && same(bo.X) && isRingLen(bo.Y),
+			bo.Op == token.LSS && truth && same(bo.X) && isRingLen(bo.Y),
+			bo.Op == token.GTR && truth && same(bo.Y) && isRingLen(bo.X),
+			bo.Op == token.LEQ && !truth && same(bo.Y) && isRingLen(bo.X):
+			return true
+		}
+		return false
+	}
+	for _, fn := range pkgFuncs(c, relCluster) {
+		if fn.Name() == "Less" || fn.Name() == "Swap" || fn.Name() == "Len" || fn.Parent() != nil {
+			continue // sort.Interface methods and the search predicate are handed valid indices by package sort
+		}
+		counts := map[string]int{}
+		ssax.Instrs(fn, func(ins ssa.Instruction) {
+			ia, ok := ins.(*ssa.IndexAddr)
+			if !ok || !isFieldLoad(ia.X, "ring") {
+				return
+			}
+			n++
+			key := ordinalKey(counts, core.FuncName(fn)+"#ring-index")
+			var bad []string
+			var judge func(v ssa.Value, at *ssa.BasicBlock, d int)
+			judge = func(v ssa.Value, at *ssa.BasicBlock, d int) {
+				if _, isConst := ssax.ConstInt(v); isConst {
+					return
+				}
+				if phi, ok := v.(*ssa.Phi); ok && d < 3 {
+					for i, e := range phi.Edges {
+						pred := phi.Block().Preds[i]
+						if _, isConst := ssax.ConstInt(e); isConst {
+							continue
+						}
+						okEdge := false
+						for _, ec := range append(edgeCondsInto(pred, phi.Block()), ssax.DomConds(pred)...) {
+							if below(ec.Cond, ec.True, e) {
+								okEdge = true
+							}
+						}
+						if !okEdge {
+							bad = append(bad, fmt.Sprintf("the index %s arriving from block %d is not tested to be below len(ring)", e.Name(), pred.Index))
+						}
+					}
+					return
+				}
+				okHere := false
+				for _, ec := range ssax.DomConds(at) {
+					if below(ec.Cond, ec.True, v) {
+						okHere = true
+					}
+				}
+				if !okHere {
+					bad = append(bad, "the index "+v.Name()+" is not tested to be below len(ring)")
+				}
+			}
+			judge(ia.Index, ia.Block(), 0)
+			c.Check(len(bad) == 0, rule, key, c.P.Pos(ia.Pos()), "the index is the constant wrap-around or a search result tested to be below len(ring)",
+				strings.Join(bad, "; ")+": for a hash beyond the last ring point sort.Search answers len(ring), the lookup indexes one past the end and panics - on the goroutine of a multi-key get that ends the whole process")
+		})
+	}
+	if n == 0 {
+		c.Undecided(rule, "cluster#ring-index", "-", "no index into the sorted ring found")
+	}
 }
